@@ -17,12 +17,14 @@ TRUSTED_BASE = [
     "no ',' in the printed text); net.ParseCIDR / IPNet.String enter through a per-record premise inside wf_record (the printed network parses back); "
     "strconv.IsPrint on runes >= 0x80 is an oracle (the theorems hold for every IsPrint); "
     "the harness reports the observed values and the model is evaluated with exactly those; the hypotheses themselves are re-checked on every observed value",
+    "B/H (SVCB/HTTPS) lines: the parameter field is handled by Model/Svcb.v (C18); net.ParseIP / IP.String (4- and 16-byte slices) and base64.StdEncoding "
+    "Decode / Encode enter as oracles with the premises of C18_text_roundtrip_outside_finding (svcb_library, Proofs/Text.v), observed per case and re-checked (lib_ok)",
     "the rearranger (C03) is a parameter of Preproc.v: any function from the file's subnet records to range-point records with rearrange [] = []",
-    "B/H (SVCB/HTTPS) lines are not modelled in Text.v: they are exercised against the round-trip property itself (spec_ok) only",
     "RocksDB, rdb.Compile's writer pipeline (C07/C15) and bufio/io.Copy are trusted below the list of key-value records / lines",
 ]
 ASSUMPTIONS = ["wf_record (decidable, Model/Text.v): field bytes < 256, quoted labels shorter than 256 bytes, numbers within their width, "
-               "locations of 0 or 2 bytes, 16-byte addresses, no empty first label in front of '*.'",
+               "locations of 0 or 2 bytes, 16-byte addresses, no empty first label in front of '*.'; B/H: the target's text does not begin with '*.', "
+               "the parameter text holds no ',' (alpn id with ',' entered through a ':'-separated line)",
                "same Codec.Serial for both parses (line level); preprocessor serial equal to the compiler's default serial or 0 (file level)",
                "file lines do not start with a space and have at least two bytes unless empty or comments"]
 HAS_MODEL_OUT = True
@@ -45,7 +47,9 @@ def _tables(c):
     cp = clist([cpair(cbytes(e["t"]), "(%s,%d,%d)" % (cbytes(e["ip"]), e["ones"], e["bits"])) for e in c["cp"]])
     np = clist(["(%s,%d,%s)" % (cbytes(e["ip"]), e["ones"], cbytes(e["t"])) for e in c["np"]])
     ru = clist([cpair(cN(r), cbool(p)) for r, p, lo in c["runes"]])
-    return "(mkT %s %s %s %s %s)" % (ipp, ips, cp, np, ru)
+    b64d = clist([cpair(cbytes(e["t"]), cbytes(e["b"])) for e in c.get("b64d") or []])
+    b64e = clist([cpair(cbytes(e["b"]), cbytes(e["t"])) for e in c.get("b64e") or []])
+    return "(mkT %s %s %s %s %s %s %s)" % (ipp, ips, cp, np, ru, b64d, b64e)
 
 
 def _dump(d):
